@@ -903,6 +903,9 @@ def _oracle_stage(case, res):
             return (f"_update_with_group: a member has output.changed=True ({ms}) but the group's output.changed is "
                     f"{res['out']['changed']!r}: changed must stay true downstream")
         return None
+    if op == "write" and (case["out"] or {}).get("filename") == "" and "many" not in case["data"] and not case.get("nowrite"):
+        # "If context.output.filename is present but empty, LenaRuntimeError is raised."
+        return None if res.get("e") == "LenaRuntimeError" else f"Write with an empty file name: expected LenaRuntimeError, got {res}"
     if "e" in res:
         # a missing .tex with an existing pdf and no `changed`: getmtime fails (not a property matter)
         return None if op == "latex" else f"{op} raised {res}"
@@ -1308,6 +1311,10 @@ def _stage_cases():
                             cases.append({"op": "write", "outdir": OUT, "mode": mode, "world": world, "data": data,
                                           "nowrite": nowrite,
                                           "out": {"filename": "f", "filetype": "csv", "dirname": dn, "changed": cin}})
+    for data in ({"text": A}, {"writer": A}, {"many": ["x"]}):
+        for nowrite in (False, True):
+            cases.append({"op": "write", "outdir": OUT, "mode": "normal", "world": {"files": [], "clock": 9}, "data": data,
+                          "nowrite": nowrite, "out": {"filename": "", "filetype": "csv", "dirname": None, "changed": None}})
     # LaTeXToPDF.run on one value
     T = {"tex": 1, "deps": [f"{OUT}/f.csv"]}
     P = {"pdf": [T, [B]]}
